@@ -11,7 +11,7 @@ CHECKS = {
    note=TB + "the formal reading of IEEE 1364-2005 in lean/Py4hwV/Verilog is ours alone (no Verilog simulator installed); value-level x; unsized literals 32-bit signed; gated/derived clocks not explored; division/modulo by zero excluded.",
    tech="translation validation against a Lean-formalised Verilog semantics + Lean proofs of per-primitive inline soundness and the register body"),
  'C04': dict(cat='proof', ref='DESIGN.md §5 C04',
-   text="Literal Lean model of Simulator.topologicalSort (Net/Sched) with theorems: whatever the sorter returns is a permutation that strictly respects every dependency (any pass limit, any instantiation order); every combinational cycle incl. self-loops is rejected; over the simulator model, evaluating stateless leaves in any edge-respecting order reaches the unique fixpoint, two orders agree, propagateAll is idempotent. Completeness (every acyclic netlist accepted) is NOT proved (convergence of the swap sorter is a conjecture) and is only explored.",
+   text="Literal Lean model of Simulator.topologicalSort (Net/Sched) with theorems: whatever the sorter returns is a permutation that strictly respects every dependency (any pass limit, any instantiation order); every combinational cycle incl. self-loops is rejected; the swap sorter TERMINATES on every acyclic netlist within n(n-1)/2+1 passes (potential = number of rank inversions), hence with the code's limit max(1000, n+1) every acyclic netlist of at most 45 leaves is accepted and acceptance ⇔ acyclic there; over the simulator model, evaluating stateless leaves in any edge-respecting order reaches the unique fixpoint, two orders agree, propagateAll is idempotent. NOT proved: acceptance of acyclic netlists with more than 45 leaves under the code's limit (needs the ≤ n passes conjecture; explored exhaustively on all digraphs with ≤ 4 leaves, sampled to 6, hill-climbed to 14).",
    note=TB + "sorter model tied by exact-order differential runs against Simulator.propagatables on seeded netlists; leaves modelled as stateless functions with read/write sets (Latch/AsynchronousMemory/Div-Mod-by-zero excluded).",
    tech="Lean 4 proofs (invariant of the pass loop, permutation, path ordering, fixpoint uniqueness by list induction) + differential correspondence"),
  'C05': dict(cat='proof', ref='DESIGN.md §5 C05',
